@@ -63,8 +63,10 @@ CHECKS = {
         text="TLC checks grid-by-accumulation = grid-by-index with both end points and the window-row definition, emits every "
              "(min,max,step) and (window, grid step) of the domain for replay through the real make_grid / writer; on real runs "
              "TLC checks exact grids, per-group and total proton linkage by mean-value intervals over reported charges, the "
-             "optimum as first minimum, both ranges, and the printed folding table and optimum line.",
-        design="5/C10"),
+             "optimum as first minimum, both ranges, and the printed folding table, charge table and optimum line; the written "
+             "file of every profile run is folded over the layout machine PkaFile.tla (every profile part the API computes is "
+             "printed once, in its place); inputs include groups with customised model pKa values.",
+        design="5/C10, 11.7"),
     "C01": dict(
         engine="PdbReader",
         technique="TLA+ reader mechanism vs declarative chain-start/census spec model-checked by TLC; TLC-generated record "
@@ -85,7 +87,9 @@ CHECKS = {
              "structures x options x five parameter files TLC checks pKa = model + desolvation + listed determinants for every "
              "group of every conformation and the average, and that table rows, stars-free values and summary of the .pka "
              "file render exactly those numbers. Hosts CovalentCoupling.tla (coupling rule behind coupling_effects: model "
-             "checking, generated molecules through the real code, real conformations trace-validated; notes only).",
+             "checking, generated molecules through the real code, real conformations trace-validated; notes only) and "
+             "PkaFile.tla (layout of the written file: writer vs acceptor model-checked incl. one-line damage; every written "
+             "file folded over the acceptor, both tables list the same groups).",
         design="5/C02, 11.7"),
     "C04": dict(
         engine="Geometry",
@@ -95,8 +99,8 @@ CHECKS = {
     "C05": dict(
         engine="Iterative",
         technique='TLA+ iterative-solver spec (fixed point, cluster independence) model-checked by TLC; TLC-generated configurations replayed into iterative.add_determinants; unions of real structures vs parts trace-validated by TLC (Part)',
-        text="TLC checks for every configuration of two clusters (charges, pKa, hb, coulomb values) that a converged cluster is a fixed point and that a cluster's determinants do not depend on the other cluster under the global convergence test and the cap of 10; every configuration is replayed through the real solver alone and jointly; unions of real structures at separations 25.001 A .. 9000 A x 7 directions x both orders are run and TLC checks every group of each part equals the part run alone; >1000 A unions must not fail.",
-        design="5/C05"),
+        text="TLC checks for every configuration of two clusters (charges, pKa, hb, coulomb values) that a converged cluster is a fixed point and that a cluster's determinants do not depend on the other cluster under the global convergence test and the cap of 10; every configuration is replayed through the real solver alone and jointly; unions of real structures at separations 25.001 A .. 9000 A x 7 directions x both orders are run and TLC checks every group of each part equals the part run alone (also when the far part comes in two conformations); >1000 A unions must not fail. Energy.tla transcribes the distance laws of one interaction as exact fractions: TLC checks zero at and beyond the outer cut-off on grids around every break point and every case is replayed into the real functions.",
+        design="5/C05, 11.2"),
     "C06": dict(
         engine="Identity",
         technique='TLA+ relabelling spec (chain maps, shifts, sequential renumbering, twins; key faithfulness) model-checked by TLC; TLC-generated descriptors applied to real structures; run pairs trace-validated by TLC (SameUpToLabels); known finding attributed by diagnostic patch',
@@ -125,8 +129,8 @@ CHECKS = {
     "C14": dict(
         engine="TitrateOnly",
         technique='TLA+ titrate-only spec (parser grammar, filter laws) model-checked by TLC; TLC-generated entries replayed into parse_res_string; -i runs trace-validated by TLC (DeclCensus with ListedRes, EnvKept, SameAll)',
-        text='TLC checks the parser mechanism against the grammar for every entry shape and the filter laws; every entry string goes through the real parser; for fragments with twins all (thorough) or a covering selection of residue subsets are run with -i and TLC checks the reported census matched on chain, number and insertion code, that listed groups keep desolvation/buried/backbone terms and all groups stay present, all-listed = no option, unknown entries ignored.',
-        design="5/C14"),
+        text='TLC checks the parser mechanism against the grammar for every entry shape and the filter laws; every entry string goes through the real parser; for fragments with twins all (thorough) or a covering selection of residue subsets are run with -i and TLC checks the reported census matched on chain, number and insertion code, that listed groups keep desolvation/buried/backbone terms and all groups stay present, all-listed = no option, unknown entries ignored; iterative acid-base pairs with one member listed are decided by the fixed-point condition of Iterative.tla (IonPairKept).',
+        design="5/C14, 11.3"),
     "C15": dict(
         engine="Coupling",
         technique='TLA+ swap spec (transfer_determinant, swap . swap = identity) model-checked by TLC; TLC-generated configurations replayed into NCCG.swap_interactions; runs with the analysis on/off trace-validated by TLC (SameScores, symmetry, star iff partner)',
@@ -135,8 +139,10 @@ CHECKS = {
     "C16": dict(
         engine="SignTable",
         technique='TLA+ Coulomb sign table (mechanism vs statement) model-checked by TLC; TLC-generated cases replayed into add_coulomb_determinants / set_ion_determinants / set_determinants with stubbed magnitudes; group records of corpus runs trace-validated by TLC (C16 invariants)',
-        text="TLC checks that the code's assignment rule satisfies the statement's sign rule for all charge / model-pKa combinations and ions; every case and every pair of titratable types of the parameter file goes through the real functions with a stubbed interaction magnitude; on corpus runs (test structures, every ion type next to acids and bases, like-charge constructs) TLC checks desolvation, backbone and Coulomb signs, Coulomb and side-chain bounds, buried fraction and equal-and-opposite acid-base determinants for every group.",
-        design="5/C16"),
+        text="TLC checks that the code's assignment rule satisfies the statement's sign rule for all charge / model-pKa combinations and ions; every case and every pair of titratable types of the parameter file goes through the real functions with a stubbed interaction magnitude; on corpus runs (test structures, every ion type next to acids and bases, like-charge constructs) TLC checks desolvation, backbone and Coulomb signs, Coulomb and side-chain bounds, buried fraction and equal-and-opposite acid-base determinants for every group; Energy.tla bounds every single "
+             "hydrogen-bond and Coulomb value by its configured maximum on grids of distance, angle factor and dielectric weight, "
+             "each case replayed into the real functions.",
+        design="5/C16, 11.2"),
     "C17": dict(
         engine="Protonate",
         technique='TLA+ electron-counting / builder-cascade spec model-checked by TLC; TLC-generated environments replayed into Protonate.protonate_atom on real Atom objects; hydrogens of replays and corpus runs trace-validated by TLC (count, bond length, separation, single parent, equivariance)',
